@@ -404,10 +404,58 @@ def sample(ctx, budget=1.0, hint=None, broken=None):
                          repr([(p.start, p.end) for p in pieces]), repr((arc.start, arc.end)), 'list(%s.%s(%d))' % (rep, nm, k))
         if len(samples) < 3:
             samples.append({'arc': ctor, 'Lambda': ref[4]})
+    # twins: an arc and a copy of it (copy.copy / deepcopy / pickle / Arc(**same data)) are two objects; re-parameterising one of
+    # them after an edit must not change what the other evaluates to
+    import copy as _copy
+    import pickle as _pickle
+    for it in range(int(ctx.n(80, 800) * budget)):
+        scale = r.choice([1e-2, 1.0, 1e3])
+        start = complex(r.uniform(-1, 1), r.uniform(-1, 1)) * scale
+        end = start + complex(r.uniform(0.3, 1), r.uniform(-1, 1)) * scale
+        ch = abs(end - start)
+        rad = complex(r.uniform(0.7, 3), r.uniform(0.7, 3)) * ch
+        rot = r.choice([0, 30, 45.5, -135.25, 200.5])
+        large, sweep = r.random() < 0.5, r.random() < 0.5
+        ctor = 'Arc(%r, %r, %r, %r, %r, %r)' % (start, rad, rot, large, sweep, end)
+        how = r.choice(['copy.copy', 'copy.copy', 'copy.deepcopy', 'pickle'])
+        edit = r.choice(['start', 'end', 'radius', 'rotation', 'sweep', 'large_arc'])
+        who = r.choice(['copy-edited', 'original-edited'])
+        with warnings.catch_warnings():
+            warnings.simplefilter('ignore')
+            a = P.Arc(start, rad, rot, large, sweep, end)
+            warm = r.random() < 0.5
+            if warm:
+                a.point(0.3); a.length()
+            b = {'copy.copy': _copy.copy, 'copy.deepcopy': _copy.deepcopy, 'pickle': lambda o: _pickle.loads(_pickle.dumps(o))}[how](a)
+            ed, keep = (b, a) if who == 'copy-edited' else (a, b)
+            newval = {'start': start + complex(0.4, -0.3) * ch, 'end': end + complex(0.25, 0.5) * ch, 'radius': rad * 1.7, 'rotation': rot + 40,
+                      'sweep': not sweep, 'large_arc': not large}[edit]
+            setattr(ed, edit, newval)
+            ed._parameterize()
+            n_eval += 1
+            nontriv.add(('twin', how, edit, who))
+            ref = ref_arc(start, rad, rot, large, sweep, end)
+            size = max(abs(ref[1].real), abs(ref[1].imag), ch)
+            bad = None
+            for t in (0.0, 0.3, 0.5, 1.0):
+                if abs(keep.point(t) - ref_point(ref, t)) > 1e-6 * size:
+                    bad = ('point(%r)' % t, keep.point(t), ref_point(ref, t)); break
+            if bad is None:
+                h = 1e-5
+                fd = (keep.point(0.4 + h) - keep.point(0.4 - h)) / (2 * h)
+                if abs(keep.derivative(0.4) - fd) > 1e-4 * (abs(fd) + size):
+                    bad = ('derivative(0.4)', keep.derivative(0.4), fd)
+            if bad is not None:
+                fail('Arc/twin: %s after %s' % (bad[0].split('(')[0], how), 'after %s and an edit of %s + _parameterize() on the %s, the untouched twin no longer evaluates its own arc'
+                     % (how, edit, 'copy' if who == 'copy-edited' else 'original'), {'arc': ctor, 'copy': how, 'edit': edit, 'edited': who}, repr(bad[1]), repr(bad[2]),
+                     "(lambda a: (lambda w, b: (lambda ed, keep: (setattr(ed, %r, %r), ed._parameterize(), keep.%s)[-1])(*((b, a) if %r else (a, b))))(%s, %s(a)))(svgpathtools.%s)"
+                     % (edit, newval, bad[0], who == 'copy-edited', '(a.point(0.3), a.length())' if warm else 'None',
+                        {'copy.copy': "__import__('copy').copy", 'copy.deepcopy': "__import__('copy').deepcopy",
+                         'pickle': "(lambda o: __import__('pickle').loads(__import__('pickle').dumps(o)))"}[how], ctor))
     return {'evaluations': n_eval, 'distinct_nontrivial': len(nontriv), 'failures': fails, 'samples': samples,
             'rule': 'random start != end at scales 1e-2..1e3; radii generous / too small / far too small / exactly fitting (dyadic semicircles) / a hair above the '
                     'minimum (1e-3..1e-10) / negative-signed / very eccentric; rotations multiples of 90, arbitrary, outside [0,360); all four flag combinations; '
-                    'compared with an independent implementation of W3C F.6.5. distinct = distinct (radius class, scale, flags, rotation multiple of 90?)'}
+                    'compared with an independent implementation of W3C F.6.5; twins (copy.copy/deepcopy/pickle, one of them edited and re-parameterised, the other evaluated). distinct = distinct (radius class, scale, flags, rotation multiple of 90?)'}
 
 
 def replay(spt, f):
